@@ -37,6 +37,10 @@ TRUSTED = [
     "Model/RelativeDelta.lean (mk, add, sub, neg, abs, addTimedelta, mulInt, bool, eq, hashKey) is hand-written and tied by "
     "the correspondence ops rd.mk / rd.expr (random expression trees) / rd.bool / rd.eq / rd.hash, and rd.add (applyTo, on the values and their weekday n re-spellings: what eq_applyTo rests on); the tuple passed to "
     "hash() is captured in-process (module-level name `hash` shadowed for the duration of the call) and compared with hashKey",
+    "harness/translate_wd.py (WdPy; runtime primitives Model/WdPy.lean: the object as the pair of its two __slots__, Py.getIdx, "
+    "truthiness of an Optional int, the format \"%s(%+d)\") re-translates dateutil._common.weekday (all 7 methods) and "
+    "rrule.weekday.__init__ into Generated/WdOps.lean on every run; a method outside the translated set, other slots or any "
+    "construct outside the fragment is a broken tie; validated against the implementation by harness/props/wdlib.py (wdgen.*)",
     "the ydayidx literal of __init__ is read from the working tree's AST and compared with the model's table (rd.ydayidx)",
     "PROVED since the dyadic extension (theorems gen_scale_eq_model, mulDyadic_spec, mulDyadic_exact, mulDyadic_int, "
     "normalized_spec): on INTEGER-valued records `*` by any m/2^k (all integers, 0.5, 1.5, 0.25 ...), `/` by +-2^k and "
@@ -271,6 +275,8 @@ def correspondence(ctx):
             ctx.count("corr_divp2")
             reqs.append("rd.normalized " + w); exp.append(L.run(lambda: d.normalized(), L.rd_wire))
             ctx.count("corr_normalized")
+    # (8) dateutil._common.weekday: the translated methods and the hand model against the implementation
+    from props import wdlib; wdlib.correspondence(ctx)
     # (6) the history of one object: use -> mutate (weeks setter / attribute assignment) -> use; after EVERY step the model
     #     on the current record, rd.setweeks, rd.hist; and the source audit the model's "a use leaves the record alone" rests on
     history_audit(ctx)
